@@ -1,1 +1,129 @@
-// harness file fdl_parameters (see /verif/DESIGN.md)
+// C01 time lemmas and C03 watchdog factors (src/fdl/parameters.rs, src/lib.rs Baudrate), as
+// crate::fdl::parameters::verif.
+
+use super::*;
+
+fn any_baud() -> crate::Baudrate {
+    match kani::any::<u8>() {
+        0 => crate::Baudrate::B9600,
+        1 => crate::Baudrate::B19200,
+        2 => crate::Baudrate::B31250,
+        3 => crate::Baudrate::B45450,
+        4 => crate::Baudrate::B93750,
+        5 => crate::Baudrate::B187500,
+        6 => crate::Baudrate::B500000,
+        7 => crate::Baudrate::B1500000,
+        8 => crate::Baudrate::B3000000,
+        9 => crate::Baudrate::B6000000,
+        _ => crate::Baudrate::B12000000,
+    }
+}
+
+fn ref_rate(b: crate::Baudrate) -> u64 {
+    match b {
+        crate::Baudrate::B9600 => 9_600,
+        crate::Baudrate::B19200 => 19_200,
+        crate::Baudrate::B31250 => 31_250,
+        crate::Baudrate::B45450 => 45_450,
+        crate::Baudrate::B93750 => 93_750,
+        crate::Baudrate::B187500 => 187_500,
+        crate::Baudrate::B500000 => 500_000,
+        crate::Baudrate::B1500000 => 1_500_000,
+        crate::Baudrate::B3000000 => 3_000_000,
+        crate::Baudrate::B6000000 => 6_000_000,
+        crate::Baudrate::B12000000 => 12_000_000,
+    }
+}
+
+/// bits -> time conversion: never longer than the exact time, less than 1 us shorter.
+fn bits_to_time_exact(baud: crate::Baudrate) {
+    let bits: u32 = kani::any();
+    // everything the stack converts: up to 2^16 slot bits times (6 + 2*125) for the token
+    // time-out, TTR up to 2^24
+    kani::assume(bits <= (1 << 25));
+    let rate = ref_rate(baud);
+    assert!(baud.to_rate() == rate, "C01/rate: the baud rate's numeric value");
+    let t = baud.bits_to_time(bits).total_micros();
+    // floor(bits * 10^6 / rate) without dividing: t*rate <= bits*10^6 < (t+1)*rate
+    let exact = u64::from(bits) * 1_000_000;
+    assert!(t * rate <= exact && exact < (t + 1) * rate, "C01/conversion: a bit count converts to the exact time rounded down, i.e. less than 1 us short");
+    kani::cover!(t * rate < exact, "cover: conversion rounds down");
+}
+
+macro_rules! per_baud {
+    ($name:ident, $f:ident, $b:ident) => {
+        #[kani::proof]
+        fn $name() {
+            $f(crate::Baudrate::$b);
+        }
+    };
+}
+
+per_baud!(c01_bits_to_time_b9600, bits_to_time_exact, B9600);
+per_baud!(c01_bits_to_time_b19200, bits_to_time_exact, B19200);
+per_baud!(c01_bits_to_time_b31250, bits_to_time_exact, B31250);
+per_baud!(c01_bits_to_time_b45450, bits_to_time_exact, B45450);
+per_baud!(c01_bits_to_time_b93750, bits_to_time_exact, B93750);
+per_baud!(c01_bits_to_time_b187500, bits_to_time_exact, B187500);
+per_baud!(c01_bits_to_time_b500000, bits_to_time_exact, B500000);
+per_baud!(c01_bits_to_time_b1500000, bits_to_time_exact, B1500000);
+per_baud!(c01_bits_to_time_b3000000, bits_to_time_exact, B3000000);
+per_baud!(c01_bits_to_time_b6000000, bits_to_time_exact, B6000000);
+per_baud!(c01_bits_to_time_b12000000, bits_to_time_exact, B12000000);
+
+/// Token-lost time-outs: 6 slot times plus 2 per address, so that stations with different
+/// addresses never time out together (the lower address claims first and is heard by the others).
+fn tto_stagger(baud: crate::Baudrate) {
+    let slot_bits: u16 = kani::any();
+    kani::assume(slot_bits >= min_slot_bits(baud));
+    let a: u8 = kani::any();
+    let b: u8 = kani::any();
+    kani::assume(a < b && b <= 125);
+    let pa = Parameters { address: a, baudrate: baud, slot_bits, ..Default::default() };
+    let pb = Parameters { address: b, baudrate: baud, slot_bits, ..Default::default() };
+    let ta = pa.token_lost_timeout().total_micros();
+    let tb = pb.token_lost_timeout().total_micros();
+    let slot = pa.slot_time().total_micros();
+    let d = u64::from(b - a);
+    assert!(ta >= 6 * slot, "C01/tto: the token-lost time-out is at least six slot times");
+    assert!(tb >= ta + 2 * d * slot, "C01/tto-stagger: the time-outs of two stations differ by at least two slot times per address step");
+    // exact value: slot_bits * (6 + 2*address) bit times, rounded down
+    let rate = ref_rate(baud);
+    let exact = u64::from(slot_bits) * (6 + 2 * u64::from(a)) * 1_000_000;
+    assert!(ta * rate <= exact && exact < (ta + 1) * rate, "C01/tto: the time-out is (6 + 2*address) slot times");
+    kani::cover!(b == a + 1, "cover: adjacent addresses");
+}
+
+per_baud!(c01_tto_stagger_b9600, tto_stagger, B9600);
+per_baud!(c01_tto_stagger_b19200, tto_stagger, B19200);
+per_baud!(c01_tto_stagger_b31250, tto_stagger, B31250);
+per_baud!(c01_tto_stagger_b45450, tto_stagger, B45450);
+per_baud!(c01_tto_stagger_b93750, tto_stagger, B93750);
+per_baud!(c01_tto_stagger_b187500, tto_stagger, B187500);
+per_baud!(c01_tto_stagger_b500000, tto_stagger, B500000);
+per_baud!(c01_tto_stagger_b1500000, tto_stagger, B1500000);
+per_baud!(c01_tto_stagger_b3000000, tto_stagger, B3000000);
+per_baud!(c01_tto_stagger_b6000000, tto_stagger, B6000000);
+per_baud!(c01_tto_stagger_b12000000, tto_stagger, B12000000);
+
+/// Watchdog factors for every admissible timeout: both in 1..=255 and never shorter than asked
+/// (in the watchdog's 10 ms time base).
+#[kani::proof]
+#[kani::unwind(258)]
+fn c03_watchdog_factors() {
+    let micros: u64 = kani::any();
+    kani::assume(micros >= 10_000 && micros <= 650_000_000);
+    let dur = crate::time::Duration::from_micros(micros);
+    let p = ParametersBuilder::new(1, crate::Baudrate::B19200).watchdog_timeout(dur).build();
+    match p.watchdog_factors {
+        Some((f1, f2)) => {
+            assert!(f1 >= 1 && f2 >= 1, "C03/watchdog: both watchdog factors are in 1..=255");
+            let want_10ms = micros / 10_000;
+            assert!(u64::from(f1) * u64::from(f2) >= want_10ms, "C03/watchdog: the configured watchdog time (f1*f2*10 ms) is not shorter than the requested one");
+            assert!(p.watchdog_timeout() == Some(crate::time::Duration::from_millis(u64::from(f1) * u64::from(f2) * 10)), "C03/watchdog: the reported watchdog time is f1*f2*10 ms");
+            kani::cover!(f1 > 1, "cover: timeout needing two factors");
+            kani::cover!(micros == 650_000_000, "cover: longest timeout");
+        }
+        None => assert!(false, "C03/watchdog: a watchdog timeout between 10 ms and 650 s yields factors"),
+    }
+}
